@@ -128,8 +128,9 @@ RetFails(c) ==
     (IF st = "legalize"
      THEN LegalFails("C01", c) \cup OrientFails(call.entry, c) \cup
           (IF Legal(call.entry) /\ AllRowHigh(call.entry) /\ PolarityRowsAllowed(call.entry)
-           THEN (IF Positions(c) # Positions(call.entry)
-                 THEN {F("C11", <<"legal single-row placement moved">>, C11Signature(params))}
+           THEN (IF Positions(c) # Positions(call.entry) \/
+                    \E i \in Movable(c) : c.cells[i].p = "ANY" /\ c.cells[i].o # call.entry.cells[i].o
+                 THEN {F("C11", <<"legal single-row placement moved (position, or orientation of an unrestricted cell)">>, C11Signature(params))}
                  ELSE {F("note", <<"C11 antecedent held">>, "c11-antecedent")})
            ELSE {}) \cup
           (IF TrivialFit(call.entry) THEN {F("note", <<"success was trivial and legalization returned">>, "c01-trivial-antecedent")} ELSE {})
